@@ -4,9 +4,12 @@
 def CFG(R, FZ):
     return {
         "C01": dict(pkg="c01", level="exploration", runs=[R(shards=(8, 16))]),
+        "C02": dict(pkg="c02", level="exploration", runs=[R(shards=(8, 16))]),
         "C04": dict(pkg="c04", level="exploration", runs=[R(shards=(8, 16))]),
         "C05": dict(pkg="c05", level="exploration", runs=[R(shards=(8, 16))]),
         "C06": dict(pkg="c06", level="exploration", runs=[R(shards=(8, 16))]),
+        "C10": dict(pkg="c10", level="exploration", runs=[R(shards=(8, 16), timeout=(300, 3000)), FZ("FuzzValue", seconds=45), FZ("FuzzPackage", seconds=90), FZ("FuzzChannel", seconds=90)]),
+        "C07": dict(pkg="c07", level="exploration", runs=[R(shards=(8, 16))]),
         "C15": dict(pkg="c15", level="exploration", runs=[R(shards=(4, 16))]),
         "C16": dict(pkg="c16", level="exploration", runs=[R(shards=(4, 16))]),
         "C17": dict(pkg="c17", level="exploration", runs=[R(shards=(4, 16), timeout=(300, 3000)), FZ("FuzzParse", seconds=90)]),
